@@ -225,7 +225,134 @@ pub fn generate(seed: u64, idx: u64) -> Scenario {
     sc
 }
 
+/// Deep nesting on the stack the deployed server has: the document broker (which lexes, parses and
+/// analyses) is a spawned task and runs on a tokio worker thread with a 2 MiB stack. One session
+/// per nesting shape: open the document, type one more level, ask the recursive handlers.
+pub const LADDER: u64 = 10;
+pub const LADDER_DEPTH: usize = 48;
+
+pub fn ladder(seed: u64, idx: u64) -> Scenario {
+    let d = LADDER_DEPTH;
+    let (label, text, more): (&str, String, (&str, &str)) = match idx {
+        0 => ("parentheses", format!("proc main() {{\n  var i: int;\n  i := {}1{};\n}}\n", "(".repeat(d), ")".repeat(d)), ("(", ")")),
+        1 => ("if", format!("proc main() {{\n{}{}\n}}\n", "if (1 = 1) {\n".repeat(d), "}\n".repeat(d)), ("if (2 = 2) {", "}")),
+        2 => ("while", format!("proc main() {{\n{}{}\n}}\n", "while (1 < 2) {\n".repeat(d), "}\n".repeat(d)), ("while (3 > 2) {", "}")),
+        3 => ("if-else", format!("proc main() {{\n{};{}\n}}\n", "if (1 = 1) ; else ".repeat(d), ""), ("", "")),
+        4 => ("array type", format!("type t = {} int;\nproc main() {{\n  var v: t;\n}}\n", "array [2] of ".repeat(d)), ("", "")),
+        5 => ("index", format!("type t = {} int;\nproc main() {{\n  var a: t;\n  a{} := 1;\n}}\n", "array [2] of ".repeat(d), "[0]".repeat(d)), ("", "")),
+        6 => ("unary minus", format!("proc main() {{\n  var i: int;\n  i := {}1;\n}}\n", "-".repeat(d)), ("", "")),
+        7 => ("unterminated parentheses", format!("proc main() {{\n  var i: int;\n  i := {}", "(".repeat(d)), ("", "")),
+        8 => ("unterminated blocks", format!("proc main() {{\n{}", "if (1 = 1) {\n while (1 = 1) {\n".repeat(d / 2)), ("", "")),
+        _ => ("operands", format!("proc main() {{\n  var i: int;\n  i := {}1{};\n}}\n", "(1 + 2 * ".repeat(d), ")".repeat(d)), ("", "")),
+    };
+    let mut s = Session::new();
+    s.handshake(true);
+    let uri = fresh_uri(0);
+    s.open(&uri, &text);
+    if !more.0.is_empty() {
+        // one more level typed in the middle: the incremental path on the same stack
+        let at = text.find(&more.0[..1]).unwrap_or(0);
+        let e = gen::to_lsp_edit(&text, at..at, more.0.to_string());
+        let mut cur = text.clone();
+        gen::apply(&mut cur, &e);
+        s.change(&uri, vec![e]);
+        let at2 = cur.rfind(more.1).unwrap_or(cur.len());
+        let e2 = gen::to_lsp_edit(&cur, at2..at2, more.1.to_string());
+        s.change(&uri, vec![e2]);
+    }
+    let t = s.text(&uri).cloned().unwrap_or_default();
+    let (l, c) = crate::h::client::position_at(&t, t.len() / 2);
+    for m in METHODS {
+        s.request(m, &uri, l, c);
+    }
+    s.shutdown();
+    s.exit();
+    Scenario {
+        property: ID.into(),
+        label: format!("nesting ladder: {label} x {d} on a 2 MiB stack"),
+        seed,
+        knobs: Knobs {
+            stack_kib: 2048,
+            ..Knobs::shipped()
+        },
+        schedule: Schedule {
+            policy: Policy::Fifo,
+            seed: 0,
+        },
+        script: s.steps,
+        segmentation: Segmentation::Frames,
+        faults: vec![],
+        close_at_end: true,
+    }
+}
+
+/// Runs the judgement in a child process whose judging thread has the scenario's stack size; a
+/// child that dies (stack overflow aborts the process, exactly as it would the server) is the
+/// violation.
+fn judge_in_child(sc: &Scenario) -> Judgement {
+    use std::sync::atomic::{AtomicU64, Ordering};
+    static N: AtomicU64 = AtomicU64::new(0);
+    let mut j = Judgement::default();
+    let dir = std::env::temp_dir();
+    let path = dir.join(format!("simcheck-child-{}-{}.json", std::process::id(), N.fetch_add(1, Ordering::Relaxed)));
+    if std::fs::write(&path, serde_json::to_string(sc).unwrap()).is_err() {
+        j.notes.push("harness: cannot write the child scenario".into());
+        return j;
+    }
+    let exe = std::env::current_exe().expect("current_exe");
+    let out = std::process::Command::new(exe)
+        .args(["judge-child", ID, path.to_str().unwrap()])
+        .env("VERIF_IN_CHILD", "1")
+        .output();
+    let _ = std::fs::remove_file(&path);
+    j.probe("session run on a 2 MiB stack in a child process", 1);
+    let out = match out {
+        Ok(o) => o,
+        Err(e) => {
+            j.notes.push(format!("harness: cannot start the child process: {e}"));
+            return j;
+        }
+    };
+    let stdout = String::from_utf8_lossy(&out.stdout);
+    let stderr = String::from_utf8_lossy(&out.stderr);
+    if !out.status.success() {
+        let overflow = stderr.contains("stack overflow") || stderr.contains("overflowed its stack");
+        j.violate(
+            ID,
+            if overflow { "stack-overflow" } else { "process-died" },
+            if overflow { "stack-overflow".into() } else { "process-died".into() },
+            format!(
+                "run on a thread with a {} KiB stack (tokio worker threads have 2048 KiB) the process dies ({:?}): {}",
+                sc.knobs.stack_kib,
+                out.status,
+                stderr.lines().last().unwrap_or("")
+            ),
+        );
+        return j;
+    }
+    for l in stdout.lines() {
+        if let Some(rest) = l.strip_prefix("CHILD-VIOLATION ") {
+            if let Ok(v) = serde_json::from_str::<serde_json::Value>(rest) {
+                if v["property"] == ID {
+                    j.violate(
+                        ID,
+                        v["clause"].as_str().unwrap_or(""),
+                        v["signature"].as_str().unwrap_or("").to_string(),
+                        v["detail"].as_str().unwrap_or("").to_string(),
+                    );
+                }
+            }
+        } else if let Some(rest) = l.strip_prefix("CHILD-NOTE ") {
+            j.notes.push(rest.to_string());
+        }
+    }
+    j
+}
+
 pub fn judge(sc: &Scenario) -> Judgement {
+    if sc.knobs.stack_kib > 0 && std::env::var("VERIF_IN_CHILD").is_err() {
+        return judge_in_child(sc);
+    }
     let mut j = Judgement::default();
     // domain: well-formed sessions (handshake first, shutdown + exit last)
     let n = sc.script.len();
